@@ -157,7 +157,7 @@ impl Property for C01 {
         vec!["a proof whose valid signatures already reach the threshold but which also carries an invalid signature is unconstrained by the statement (Either)"]
     }
     fn cases(&self, tier: Tier) -> u64 {
-        tier.pick(8000, 150000)
+        tier.pick(30000, 400000)
     }
     fn strategy(&self, _tier: Tier) -> BoxedStrategy<Case> {
         (
